@@ -8,3 +8,4 @@ PAIRS += [p for p in _m.PAIRS if p["name"] in ("absorb", "delete")]
 # pages of one segment do not overlap: splitting partitions a span, coalescing merges only FREE neighbours, a freed span is re-labelled as one span
 import seg_common as _sc
 PAIRS += [_sc.pairs()["slice_split"], _sc.pairs()["span_free"]] + [p for p in _sc.span_allocate_pairs() if p["name"].startswith("span_coalesce")]
+PAIRS += page_common.queue_pairs()       # a page moved between queues stays in exactly one queue
